@@ -7,6 +7,12 @@ A contract is a class decorated with @contract('<module>:<qualname>', props=[...
     pins         = {'param': '<module>:<qualname>'}   parameter is this very class / function object
     def requires*(...)                        preconditions (spec expressions over the parameters)
     def callsite_requires*(...)               protocol conditions proved at the library's own call sites only
+    comp_<name> = {'elt_contains': text, 'has_if': bool}; def comp_<name>__source(..., xs) / __keeps(..., x) /
+                 __element(..., x, y)             obligations on the matching comprehension of the body: the iterated
+                                              sequence, the filter condition (equivalence, generic element) and the
+                                              produced element (relation to its source element, generic element)
+    cut<N> = {'after_assign': name, 'value_contains': text}; def cut<N>_*(...locals...)
+                                              intermediate assertion proved right after the matching assignment
     def ensures*(..., result)                 postconditions of a normal return
     def returns_iff(...)                      returns normally  <=>  condition (else raises one of raises_only)
     raises_only  = ('<class>', ...)           the only exception classes that may escape
@@ -136,6 +142,20 @@ def load_contracts(index: Index, module_names: List[str]) -> Dict[str, Contract]
                     ct.ensures_on.setdefault(k, []).append(fi)
                 elif fname.startswith('ensures'):
                     ct.ensures.append(fi)
+                elif fname.startswith('comp_') and '__' in fname:
+                    # comp_<name>__source / __keeps / __element: obligations on the comprehension matched by the class
+                    # attribute comp_<name> = {'elt_contains': text, 'has_if': bool}
+                    cname, what = fname[len('comp_'):].split('__', 1)
+                    ct.extra.setdefault('comp_clauses', {}).setdefault(cname, {}).setdefault(what, []).append(fi)
+                elif fname.startswith('cut') and fname[3:4].isdigit():
+                    # cut<N>_*: an intermediate assertion at the program point described by the class attribute cut<N>
+                    digits = ''
+                    for ch in fname[3:]:
+                        if ch.isdigit():
+                            digits += ch
+                        else:
+                            break
+                    ct.extra.setdefault('cut_clauses', {}).setdefault(int(digits), []).append(fi)
                 elif fname.startswith('invariant'):
                     # invariant<N>[_suffix]: loop ordinal N
                     digits = ''
